@@ -270,6 +270,10 @@ func (e *Exec) loadFrom(st *State, loc *Loc, useOld bool) Val {
 			}
 		}
 	}
+	if _, isSlice := under(loc.Typ).(*types.Slice); isSlice && len(v.T) == 4 && !useOld && !strings.Contains(v.T[2], "|q:") {
+		st.assumeOnce(app("bvule", v.T[2], bvLitI(1<<40, 64)))
+		st.assumeOnce(app("bvule", v.T[2], v.T[3]))
+	}
 	if len(v.T) == 2 && isProtoOneof(loc.Typ) && !useOld {
 		st.assume(tImp(tNot(tEq(v.T[0], "0")), tNot(tEq(v.T[1], "0"))))
 	}
@@ -459,7 +463,7 @@ func (e *Exec) constVal(st *State, c *ssa.Const) Val {
 	if c.Value == nil {
 		return e.zeroVal(t)
 	}
-	switch u := t.Underlying().(type) {
+	switch u := under(t).(type) {
 	case *types.Basic:
 		switch {
 		case u.Info()&types.IsBoolean != 0:
@@ -822,7 +826,7 @@ type reachErr string
 
 // refLeaf: the leaf holds an object reference (not a string id, tag or ghost value).
 func refLeaf(t types.Type, l Leaf) bool {
-	switch t.Underlying().(type) {
+	switch under(t).(type) {
 	case *types.Pointer, *types.Map, *types.Chan, *types.Signature:
 		return true
 	case *types.Interface:
@@ -875,7 +879,7 @@ func (e *Exec) assumeTypeWF(st *State, v Val, t types.Type) {
 
 // assumeWellFormed adds the type invariants of a symbolic input value.
 func (e *Exec) assumeWellFormed(st *State, v Val, t types.Type, isParam bool) {
-	switch t.Underlying().(type) {
+	switch under(t).(type) {
 	case *types.Slice:
 		// 0 <= len <= cap, offsets small enough that arithmetic cannot wrap
 		lim := bvLitI(1<<40, 64)
